@@ -688,7 +688,7 @@ class Unknown(Exception):
 
 
 def _coerce(v, t):
-    if t is None:
+    if t is None or isinstance(v, tuple):
         return v
     if t.get('bool'):
         return 1 if v else 0
@@ -790,6 +790,40 @@ def ceval(n, bind, defs=None, depth=0):
         if name in ('min', 'max') and len(a) == 2:
             x, y = ceval(a[0], bind, defs, depth + 1), ceval(a[1], bind, defs, depth + 1)
             return min(x, y) if name == 'min' else max(x, y)
+        if name in ('make_pair', 'make_tuple') and a:
+            return tuple(ceval(x, bind, defs, depth + 1) for x in a)
+        if s.callee['g'] == 'std::get' and len(a) == 1:
+            ta = s.callee.get('targs') or []
+            if ta and isinstance(ta[0], dict) and 'int' in ta[0]:
+                tv = ceval(a[0], bind, defs, depth + 1)
+                if isinstance(tv, tuple) and ta[0]['int'] < len(tv):
+                    return tv[ta[0]['int']]
+    if k in CTOR_KINDS and len(s.c) == 1:
+        return ceval(s.c[0], bind, defs, depth + 1)      # copy / conversion of an evaluated value
+    if k == 'MemberExpr' and s.c and s.decl and s.decl.get('name') in ('first', 'second'):
+        tv = ceval(s.c[0], bind, defs, depth + 1)
+        if isinstance(tv, tuple) and len(tv) == 2:
+            return _coerce(tv[0] if s.decl['name'] == 'first' else tv[1], s.type)
+    # a pure straight-line repo function: const locals + one return at the end
+    if k in ('CallExpr', 'CXXMemberCallExpr') and s.callee and s.callee.get('in_repo') and s.callee_id is not None and depth < 40:
+        hf = s.prog.fn_of_fref(s.callee_id)
+        stmts = list(hf.body.c) if hf is not None and hf.body is not None and hf.body.k == 'CompoundStmt' else None
+        if stmts and stmts[-1].k == 'ReturnStmt' and stmts[-1].c and all(st.k == 'DeclStmt' for st in stmts[:-1]) and \
+                len(hf.param_ids) == len(s.args()):
+            vals = {pid: _coerce(ceval(a_, bind, defs, depth + 1), (s.prog.type(s.prog.vars[pid]['ty']) or {}))
+                    for pid, a_ in zip(hf.param_ids, s.args())}
+            ldefs = {}
+            for st in stmts[:-1]:
+                for d_ in st.c:
+                    if d_.k == 'VarDecl' and d_.c:
+                        ldefs[d_.decl_id] = d_.c[0]
+
+            def bind2(x):
+                v_ = var_of(x)
+                if v_ is not None and v_ in vals and x.strip_all().k == 'DeclRefExpr':
+                    return vals[v_]
+                return None
+            return ceval(stmts[-1].c[0], bind2, ldefs, depth + 1)
     raise Unknown('%s `%s`' % (k, s.text(30)))
 
 
